@@ -449,7 +449,19 @@ impl<const K: usize> Complement for Kmer<codec::dna::Dna, K, usize> {}
 
 impl<A: Codec, const K: usize> ReverseMut for Kmer<A, K, usize> {
     fn rev(&mut self) {
-        self.rev_blocks_2();
+        if A::BITS == 2 {
+            // fast path: byte swap + table lookup of 2-bit blocks
+            self.rev_blocks_2();
+        } else {
+            // reverse all K * BITS bits, then restore the bit order within each symbol
+            let mut ba = <usize as sealed::KmerStorage>::to_bitarray(self.bs);
+            let bs: &mut Bs = &mut ba.as_mut()[..Self::BITS];
+            bs.reverse();
+            for chunk in bs.chunks_exact_mut(A::BITS as usize) {
+                chunk.reverse();
+            }
+            self.bs = <usize as sealed::KmerStorage>::from_bitslice(bs);
+        }
     }
 }
 
